@@ -591,7 +591,14 @@ def _run(mod, args, seed, known, known_open, scratch_root):
     if out_lines:
         return 1
     if errors:
+        shown = set()
         for e in errors:
-            print("HARNESS ERROR: " + e, file=sys.stderr)
+            key = e.split(": ", 1)[-1][-300:]
+            if key in shown or len(shown) >= 3:
+                continue
+            shown.add(key)
+            print("HARNESS ERROR: " + e[-1500:], file=sys.stderr)
+        print("HARNESS ERROR: %d task(s) failed in the harness" % len(errors),
+              file=sys.stderr)
         return 2
     return 0
